@@ -270,7 +270,7 @@ pub fn histories(args: &Args, sink: &mut Sink, rng: &mut Rng, rt: &tokio::runtim
     let now0 = (now_ns() / SEC) * SEC;
     let mut st = cleanup_stream();
     st.name = "chk_cleanup_e2e".into();
-    for _ in 0..args.vol(5, 40) {
+    for _ in 0..args.vol(12, 60) {
         rt.block_on(async {
             let mut hs = new_hist(rng, now0).await;
             let nops = 6 + rng.below(8);
@@ -327,7 +327,7 @@ pub fn auto(args: &Args, sink: &mut Sink, rng: &mut Rng, rt: &tokio::runtime::Ru
             let dir = tempfile::tempdir().unwrap();
             let (base, uri) = tmp_uri(&dir);
             let h = ClockHandler::new();
-            let mut t = now0 - 25 * DAY;
+            let mut t = now0 - 25 * DAY - 7 * HOUR;
             h.set(Some(t));
             let p = WriteParams {
                 mode: WriteMode::Create,
